@@ -456,6 +456,11 @@ impl HasChildren for XmlAttribute {
         }
 
         let v = XmlAttributeValue::try_from(value.clone())?;
+        if let XmlItem::Unexpanded(reference) = &*value {
+            // No `<` in attribute values, no external entities: also for a reference that is
+            // moved in from element content, where its entity was fine.
+            check_entity_references(reference.borrow().name.as_str(), &self.context, true)?;
+        }
         value.remove_from_parent();
         value.set_parent_id(Some(self.id()));
         value.context().add_item(&value);
